@@ -227,6 +227,10 @@ class Proc(object):
     def op_dump(self, s, tvar):
         return dump_tree(s.env[tvar], s.reg)
 
+    def op_mark(self, s, label):
+        """Harness op: a marker in the record stream."""
+        return label
+
     def op_put(self, s, path, key):
         """Harness op (no repository code): the environment replaces the content of a file."""
         with seams.REAL_OPEN(self._p(path), 'wb') as f:
